@@ -1747,8 +1747,8 @@ bool DOMLSSerializerImpl::isDefaultNamespacePrefixDeclared() const
     for(XMLSize_t i=fNamespaceStack->size();i>0;i--)
     {
         RefHashTableOf<XMLCh>* curNamespaceMap=fNamespaceStack->elementAt(i-1);
-        const XMLCh* thisUri=curNamespaceMap->get((void*)XMLUni::fgZeroLenString);
-        if(thisUri)
+        // an xmlns="" is a declaration too, it is stored with a null or empty URI
+        if(curNamespaceMap->containsKey((void*)XMLUni::fgZeroLenString))
             return true;
     }
     return false;
@@ -1759,10 +1759,11 @@ bool DOMLSSerializerImpl::isNamespaceBindingActive(const XMLCh* prefix, const XM
     for(XMLSize_t i=fNamespaceStack->size();i>0;i--)
     {
         RefHashTableOf<XMLCh>* curNamespaceMap=fNamespaceStack->elementAt(i-1);
-        const XMLCh* thisUri=curNamespaceMap->get((void*)prefix);
         // if the prefix has been declared, check if it binds to the correct namespace, otherwise, reports it isn't bound
-        if(thisUri)
-            return XMLString::equals(thisUri,uri);
+        // (the innermost declaration counts, also an xmlns="" whose URI is stored as null or empty; no namespace is
+        // a null or an empty URI as well)
+        if(curNamespaceMap->containsKey((void*)prefix))
+            return XMLString::equals(curNamespaceMap->get((void*)prefix),uri);
     }
     return false;
 }
